@@ -198,9 +198,10 @@ Denotes(dt, p, prev, v) ==
 (* wire = "" : not exported.                                                              *)
 VARIABLES shape,     \* constant after Init
           cache,     \* cache[m][a]: current value of every parameter
+          rerr,      \* rerr[m][a]: the parameter is in the read-error state (its last read delivered no value)
           last       \* outcome of the last request:
-                     \*   [req, reply, calls, hookarg, upd, hassnap, snap]
-vars == <<shape, cache, last>>
+                     \*   [req, reply, calls, hookarg, upd, hassnap, snap, err, errm, erra]
+vars == <<shape, cache, rerr, last>>
 
 NoDt == [t |-> "none"]
 IsParam(m, a) == shape[m][a].kind = "param"
@@ -246,8 +247,31 @@ NoCalls == <<>>
 Call(op, fn, arg) == [op |-> op, fn |-> fn, arg |-> arg]     \* op: "write" | "cmd" | "read"
 \* upd: the update a change / read may announce (Null: none); snap: the SET of snapshot updates an activate
 \* delivers (hassnap: the request is a served activate)
+\* err: what happens to the read-error state of parameter errm:erra ("keep" | "set" | "clear")
 Outcome(req, reply, calls, hookarg, upd) ==
-  [req |-> req, reply |-> reply, calls |-> calls, hookarg |-> hookarg, upd |-> upd, hassnap |-> FALSE, snap |-> {}]
+  [req |-> req, reply |-> reply, calls |-> calls, hookarg |-> hookarg, upd |-> upd, hassnap |-> FALSE, snap |-> {},
+   err |-> "keep", errm |-> "", erra |-> ""]
+ErrVal == [k |-> "err"]        \* what an update carries instead of a value for a parameter in the read-error state
+WithErr(out, op, m, a) == [out EXCEPT !.err = op, !.errm = m, !.erra = a]
+
+(* Converts(dt, v): a value v delivered by the hardware (a read function) can be taken as a value of datainfo dt *)
+(* - right kind, a member of the enum, lengths inside the described bounds; the numeric range is not judged      *)
+(* here.  What does not convert is a read error, never a value in a reply, an update or a snapshot.              *)
+RECURSIVE Converts(_, _)
+Converts(dt, v) ==
+  CASE dt.t = "double" -> IsNumber(v)
+    [] dt.t \in {"int", "scaled"} -> v.k = "num"
+    [] dt.t = "enum"   -> v.k = "num" /\ \E i \in 1 .. Len(dt.mem) : dt.mem[i].val = v.n
+    [] dt.t = "string" -> v.k = "str" /\ dt.minc <= v.len /\ v.len <= dt.maxc /\ (dt.utf8 \/ v.ascii)
+    [] dt.t = "bool"   -> v.k = "bool"
+    [] dt.t = "blob"   -> v.k = "str" /\ v.b64 >= dt.minb /\ v.b64 <= dt.maxb
+    [] dt.t = "array"  -> v.k = "list" /\ dt.minlen <= Len(v.xs) /\ Len(v.xs) <= dt.maxlen
+                          /\ \A i \in 1 .. Len(v.xs) : Converts(dt.el, v.xs[i])
+    [] dt.t = "tuple"  -> v.k = "list" /\ Len(v.xs) = Len(dt.els) /\ \A i \in 1 .. Len(v.xs) : Converts(dt.els[i], v.xs[i])
+    [] dt.t = "limits" -> v.k = "list" /\ Len(v.xs) = 2 /\ \A i \in 1 .. 2 : Converts(dt.el, v.xs[i])
+    [] dt.t = "struct" -> v.k = "obj" /\ Keys(v) = MemberNames(dt)
+                          /\ \A key \in Keys(v) : Converts(dt.mem[MemberDt(dt, key)].dt, ValOf(v, key))
+    [] OTHER -> TRUE
 Refused(req, classes) == Outcome(req, Bad(classes), NoCalls, Null, Null)
 Res(out, c) == [out |-> out, cache |-> c]
 
@@ -272,7 +296,7 @@ ChangeRes(c, req) ==
                          Res(Outcome(req, Bad({"HardwareError"}), <<Call("write", a, r.v)>>, r.v, Null), c)
                ELSE LET new == IF acc.drv = "fixed" THEN acc.ret ELSE r.v
                         calls == IF acc.drv = "absent" THEN NoCalls ELSE <<Call("write", a, r.v)>>
-                    IN Res(Outcome(req, Ok(new), calls, r.v, [mod |-> m, name |-> acc.wire, v |-> new]),
+                    IN Res(WithErr(Outcome(req, Ok(new), calls, r.v, [mod |-> m, name |-> acc.wire, v |-> new]), "clear", m, a),
                            [c EXCEPT ![m][a] = new])
 
 (* ---- do ---- *)
@@ -291,7 +315,9 @@ DoRes(c, req) ==
 
 (* ---- read ---- a constant reads as its constant; a parameter without read function     *)
 (* reads as the cache; a read function is called once, what it returns is cached,          *)
-(* announced and replied                                                                   *)
+(* announced and replied - if it converts to the parameter's (final, configured) datainfo. *)
+(* Otherwise the read fails: error reply, the cached value stays, the parameter enters the  *)
+(* read-error state and an error update is announced - the value itself is never emitted.   *)
 ReadRes(c, req) ==
   LET tg == Target(req) IN
   IF ~tg.ok THEN Res(Refused(req, tg.cls), c)
@@ -299,8 +325,12 @@ ReadRes(c, req) ==
            a == tg.v
            acc == shape[m][a]
        IN IF acc.const # Null THEN Res(Outcome(req, Ok(acc.const), NoCalls, Null, Null), c)
+          ELSE IF acc.rd = "fixed" /\ ~Converts(acc.dt, acc.rret)
+               THEN Res(WithErr(Outcome(req, Bad(BV), <<Call("read", a, Null)>>, Null, [mod |-> m, name |-> acc.wire, v |-> ErrVal]),
+                                "set", m, a), c)
           ELSE IF acc.rd = "fixed"
-               THEN Res(Outcome(req, Ok(acc.rret), <<Call("read", a, Null)>>, Null, [mod |-> m, name |-> acc.wire, v |-> acc.rret]),
+               THEN Res(WithErr(Outcome(req, Ok(acc.rret), <<Call("read", a, Null)>>, Null,
+                                        [mod |-> m, name |-> acc.wire, v |-> acc.rret]), "clear", m, a),
                         [c EXCEPT ![m][a] = acc.rret])
           ELSE Res(Outcome(req, Ok(c[m][a]), NoCalls, Null, Null), c)
 
@@ -308,7 +338,7 @@ ReadRes(c, req) ==
 (* a snapshot update for every exported parameter concerned, carrying the cached value - for  *)
 (* a constant that is the constant, whatever default, configured value or read function the   *)
 (* parameter may have.  (Subscribing a command is not in the alphabet.)                        *)
-ActivateRes(c, req) ==
+ActivateRes(c, re, req) ==
   IF req.mod \notin DOMAIN shape THEN Res(Refused(req, {"NoSuchModule"}), c)
   ELSE LET accs == shape[req.mod]
            exported == {a \in DOMAIN accs : accs[a].kind = "param" /\ accs[a].wire # ""}
@@ -316,25 +346,31 @@ ActivateRes(c, req) ==
        IN IF sel = {} /\ req.name # "" THEN Res(Refused(req, {"NoSuchParameter"}), c)
           ELSE Res([Outcome(req, Ok(Null), NoCalls, Null, Null)
                     EXCEPT !.hassnap = TRUE,
-                           !.snap = {[mod |-> req.mod, name |-> accs[a].wire, v |-> c[req.mod][a]] : a \in sel}], c)
+                           !.snap = {[mod |-> req.mod, name |-> accs[a].wire,
+                                      v |-> IF re[req.mod][a] THEN ErrVal ELSE c[req.mod][a]] : a \in sel}], c)
 
-Result(c, req) ==
-  CASE req.act = "change" -> ChangeRes(c, req)
-    [] req.act = "do"     -> DoRes(c, req)
-    [] req.act = "read"   -> ReadRes(c, req)
-    [] req.act = "activate" -> ActivateRes(c, req)
+Result(c, re, req) ==
+  LET r == CASE req.act = "change" -> ChangeRes(c, req)
+             [] req.act = "do"     -> DoRes(c, req)
+             [] req.act = "read"   -> ReadRes(c, req)
+             [] req.act = "activate" -> ActivateRes(c, re, req)
+  IN [out |-> r.out, cache |-> r.cache,
+      rerr |-> IF r.out.err = "keep" THEN re ELSE [re EXCEPT ![r.out.errm][r.out.erra] = (r.out.err = "set")]]
 
 Step(req) ==
   /\ UNCHANGED shape
-  /\ last' = Result(cache, req).out
-  /\ cache' = Result(cache, req).cache
+  /\ last' = Result(cache, rerr, req).out
+  /\ cache' = Result(cache, rerr, req).cache
+  /\ rerr' = Result(cache, rerr, req).rerr
 
 \* the cache of a constant holds the constant from the beginning (not its default, not an error)
 InitCache(sh) == [m \in DOMAIN sh |-> [a \in {x \in DOMAIN sh[m] : sh[m][x].kind = "param"}
                                         |-> IF sh[m][a].const # Null THEN sh[m][a].const ELSE sh[m][a].init]]
+InitErr(sh) == [m \in DOMAIN sh |-> [a \in {x \in DOMAIN sh[m] : sh[m][x].kind = "param"} |-> FALSE]]
 NoReq == [act |-> "none"]
 InitWith(sh) == /\ shape = sh
                 /\ cache = InitCache(sh)
+                /\ rerr = InitErr(sh)
                 /\ last = Outcome(NoReq, Ok(Null), NoCalls, Null, Null)
 
 (* ------------------------------------------------------------------------------------ *)
@@ -386,12 +422,16 @@ Fitting(req) ==
   ELSE IF req.act = "change" /\ (AccOf(req).ro \/ AccOf(req).const # Null) THEN {"ReadOnly"}
   ELSE BV
 DriverFails(req) == req.act = "change" /\ ReqParam(req) /\ AccOf(req).drv = "raise"
+ReadFails(req) == req.act = "read" /\ ReqParam(req) /\ AccOf(req).const = Null /\ AccOf(req).rd = "fixed"
+                  /\ ~Converts(AccOf(req).dt, AccOf(req).rret)
 ErrorLeavesNoTrace ==
   [][ ~last'.reply.ok =>
         /\ cache' = cache
-        /\ last'.upd = Null
+        /\ last'.upd = Null \/ (ReadFails(last'.req) /\ last'.upd.v = ErrVal)
+        /\ ReadFails(last'.req) \/ rerr' = rerr
         /\ \/ last'.calls = NoCalls
            \/ DriverFails(last'.req) /\ Len(last'.calls) = 1 /\ last'.reply.cls = {"HardwareError"}
+           \/ ReadFails(last'.req) /\ last'.calls = <<Call("read", AttrOf(last'.req), Null)>>
         /\ last'.reply.cls # {}
         /\ last'.calls = NoCalls => last'.reply.cls \subseteq Fitting(last'.req)
     ]_vars
@@ -410,6 +450,14 @@ ValidIsServed ==
 
 (* the cache always holds members of the described value sets; only the addressed parameter moves *)
 CacheInDatainfo == \A m \in DOMAIN shape : \A a \in Params(m) : InDatainfo(shape[m][a].dt, cache[m][a])
+(* C06's side of the coin: whatever is emitted for a parameter - read / change reply, update, snapshot - converts  *)
+(* to its datainfo (or is the error marker); in particular not a hardware value that only fits the CLASS datatype  *)
+EmittedConverts ==
+  LET dtof(m, w) == shape[m][CHOOSE a \in DOMAIN shape[m] : shape[m][a].wire = w /\ shape[m][a].kind = "param"].dt
+      ok(m, w, v) == v = ErrVal \/ Converts(dtof(m, w), v)
+  IN /\ (last.req.act \in {"read", "change"} /\ last.reply.ok) => ok(last.req.mod, WireOf(last.req), last.reply.v)
+     /\ last.upd # Null => ok(last.upd.mod, last.upd.name, last.upd.v)
+     /\ \A u \in last.snap : ok(u.mod, u.name, u.v)
 (* a constant is never anything else: in the cache, in a read reply, in a snapshot update *)
 ConstantsHold ==
   /\ \A m \in DOMAIN shape : \A a \in Params(m) : shape[m][a].const # Null => cache[m][a] = shape[m][a].const
@@ -606,6 +654,19 @@ ShapeKc(d) == LET k == ConstCase[d] IN
           pq |-> ConstPar("_pq", k, "default", "cfg", "fixed", "none") @@ [cls |-> [ro |-> FALSE]],
           pn |-> ConstPar("_pn", k, "none", "class", "absent", "absent"),
           pv |-> ConstPar("_pv", k, "value", "class", "absent", "none")]]
+(* R: class limit vs. configured limit vs. hardware value.  The class datatype is wider (cls), the configuration   *)
+(* narrows it to the final datainfo; the read function of pa delivers a value between the two (a read error),     *)
+(* that of pb a value inside the final datainfo.  "sc": the class has twice the configured scale, the hardware     *)
+(* value lies on the configured grid only - it must come out unrounded.                                            *)
+ParR(wire, dt, cls, rret) ==
+  [Par(wire, dt, FALSE, Null, NoLim, <<>>, "none") EXCEPT !.rd = "fixed", !.rret = rret] @@ [cls |-> cls, via |-> "cfg"]
+ShapeR(k) ==
+  CASE k = "s"  -> [m |-> [pa |-> ParR("_pa", DTs, [maxc |-> 7], SLong), pb |-> ParR("_pb", DTs, [maxc |-> 7], SXyz)]]
+    [] k = "a"  -> [m |-> [pa |-> ParR("_pa", DTa, [maxlen |-> 5], List(<<Num(1), Num(2), Num(3), Num(4)>>)),
+                           pb |-> ParR("_pb", DTa, [maxlen |-> 5], List(<<Num(2), Num(3)>>))]]
+    [] k = "bl" -> [m |-> [pa |-> ParR("_pa", DTbl, [maxb |-> 5], SB(4)), pb |-> ParR("_pb", DTbl, [maxb |-> 5], SB(3))]]
+    [] k = "sc" -> [m |-> [pa |-> [ParR("_pa", DTsc, [scale2 |-> TRUE], Num(5)) EXCEPT !.init = Num(4)],     \* (the default lies
+                           pb |-> [ParR("_pb", DTsc, [scale2 |-> TRUE], Num(4)) EXCEPT !.init = Num(4)]]]    \*  on the class grid)
 (* D: a hook on a struct sees the merged value *)
 ShapeD == [m |-> [pa |-> Par("_pa", DTst, FALSE, Null, NoLim,
                              <<[at |-> "D", raise |-> <<St(Num(5), Num(2))>>, stop |-> <<>>]>>, "none")]]
@@ -618,6 +679,7 @@ IdsOf(fam) ==
     [] fam = "E" -> {<<"E", n>> : n \in 1 .. 5}
     [] fam = "E0" -> {<<"E", 1>>, <<"E", 2>>}
     [] fam = "K" -> {<<"K", "sc">>, <<"K", "bl">>} \cup {<<"Kc", d>> : d \in DOMAIN ConstCase}
+    [] fam = "R" -> {<<"R", k>> : k \in {"s", "a", "bl", "sc"}}
     [] fam = "K0" -> {<<"K", "sc">>, <<"Kc", "i0">>, <<"Kc", "e0">>, <<"Kc", "f5">>}
     [] fam = "C1" -> {<<"C", "f", "minmax", "h0", "none", "X">>, <<"C", "f", "minmax", "h1", "none", "X">>,
                       <<"C", "f", "limits", "h2", "none", "X">>,
@@ -641,6 +703,7 @@ ShapeOf(id) ==
     [] id[1] = "E" -> ShapeE(id[2])
     [] id[1] = "K" -> ShapeK(id[2])
     [] id[1] = "Kc" -> ShapeKc(id[2])
+    [] id[1] = "R" -> ShapeR(id[2])
 
 Req(act, mod, name, payload) == [act |-> act, mod |-> mod, name |-> name, payload |-> payload]
 (* requests: for every accessible every payload of its catalogue under its wire name (or  *)
